@@ -211,6 +211,21 @@ def explore_task_sem(count, depth):
 
 
 # ------------------------------------------------------------------ threaded
+def attach_lockset(sem):
+    """Lockset monitor for a SlidingWindowSemaphore: its counters and per-tag tables may only be written by the thread holding the
+    semaphore's lock.  Engages only where the lock is found as ``_lock`` (a plain lock) with the condition ``_condition`` built on it."""
+    from .. import lockset
+
+    if not lockset.is_plain_lock(getattr(sem, '_lock', None)) or not isinstance(getattr(sem, '_condition', None), threading.Condition):
+        return None
+    ol = lockset.OwnerLock()
+    st = {'violations': [], 'count': [0]}
+    sem._lock = ol
+    sem._condition = threading.Condition(ol)
+    lockset.guard(sem, ol.held_by_me, st['violations'], 'semaphore', st['count'])
+    return st
+
+
 def threaded_case(case):
     """k blocking acquirers + releases in a given order; each woken acquirer
     releases its own token at once.  At the end nobody may be blocked."""
@@ -219,6 +234,7 @@ def threaded_case(case):
 
     count, k, order, cls, seed, multi_tag = case['count'], case['k'], case['order'], case['cls'], case['seed'], case['multi_tag']
     sem = SlidingWindowSemaphore(count) if cls == 'sliding' else TaskSemaphore(count)
+    ls = attach_lockset(sem) if cls == 'sliding' else None
     inj = yieldinj.Injector(p=case.get('yield_p', 0.2), seed=seed, files=['utils.py']).install()
     try:
         tokens = [sem.acquire('A', False) for _ in range(count)]
@@ -267,6 +283,9 @@ def threaded_case(case):
     if max_held[0] > count:
         viol.append(V(f'{cls} semaphore({count}): {max_held[0]} permits were held at once (release order {order}, late acquirers '
                       f'{bool(case.get("late"))})', cls=cls, sym='over-admission'))
+    if ls and ls['violations']:
+        what, name, th = ls['violations'][0]
+        viol.append(V(f'sliding semaphore({count}): its state ({name}) was written by thread {th} without the semaphore\'s lock', cls=cls, sym='lockset'))
     fatal = r != 'done'
     final = None
     if r == 'done' and cls == 'sliding':
@@ -276,7 +295,8 @@ def threaded_case(case):
                           sym='capacity-not-restored'))
     return {'verdict': 'violated' if viol else ('held' if r == 'done' else ('violated' if viol else 'inconclusive')),
             'key': f'thr-{cls}-{count}-{k}-{order}-{multi_tag}-{bool(case.get("late"))}', 'violations': viol,
-            'stats': {'threaded_runs': 1, 'yield_events': inj.events, 'acquirers': k},
+            'stats': {'threaded_runs': 1, 'yield_events': inj.events, 'acquirers': k, 'lockset_applied': 1 if ls else 0,
+                      'lockset_writes_checked': ls['count'][0] if ls else 0},
             'summary': {'order': order, 'results': {str(i): v for i, v in results.items()}, 'await': r}, 'fatal': fatal}
 
 
